@@ -16,7 +16,7 @@ class C16(BaseCheck):
           'closed. refcount: random Open/Close '
           'histories by 1-6 holders on a real RefCountedSink vs. a counter model (underlying Open exactly on '
           '0->1, Close exactly on 1->0, surplus closes ignored, same open result for all). shared: random '
-          'CreateSink/drop histories on a real SharedSinkProvider (same key => same object while a holder '
+          'CreateSink/drop histories on a real SharedSinkProvider (in half of them also 2-4 holders asking for one key at the same instant from separate greenlets, with debug logging through a handler that yields; same key => same object while a holder '
           'lives; different key => different object). Singleton histories also have further holders that open right behind the first one (some of them gone again before the connection is even being created) and requesters whose greenlet is killed while the connection they made the pool create is still opening. non-trivial = at least 3 ops judged; distinct by '
           '(kind, op classes, sizes)')
   ANCHORS = ('scales.pool.singleton:SingletonPoolSink._Get', 'scales.sink:RefCountedSink.Open',
@@ -25,7 +25,7 @@ class C16(BaseCheck):
   REQUIRED_CLASSES = ('singleton', 'refcount', 'shared', 'concurrent-first-requests', 'replaced-after-failure',
                       'surplus-close', 'reopen-after-last-close', 'same-key', 'different-key',
                       'underlying-closed-while-held', 'underlying-state-changes',
-                      'requester-abandoned-while-opening', 'several-holders', 'holder-gone-before-connect',
+                      'requester-abandoned-while-opening', 'several-holders', 'holder-gone-before-connect', 'concurrent-holders',
                       'surplus-close-from-inside-close', 'underlying-close-raises', 'underlying-open-fails-later')
   QUICK_CASES = 1500
   THOROUGH_CASES = 120000
@@ -449,8 +449,30 @@ class C16(BaseCheck):
     keys = ['a', 'b', ('h', 1, 'lbl'), ('h', 2, 'lbl'), None][:rng.randint(2, 5)]
     held = {}     # key -> list of strong refs
     nops = rng.choice([5, 20, 60])
+    concurrent = (idx // 3) % 2 == 1
+    if concurrent and env is not None:
+      # several holders ask at the same instant, and every log call in between is a scheduling point
+      env.yielding_logs()
     for _ in range(nops):
       k = rng.choice(keys)
+      if concurrent and k is not None and rng.random() < 0.3:
+        import gevent
+        classes.add('concurrent-holders')
+        n_before = created.count(k)
+        gs = [gevent.spawn(sp.CreateSink, {'key': k}) for _i in range(rng.randint(2, 4))]
+        gevent.joinall(gs, timeout=5)
+        got = [g.value for g in gs if g.successful()]
+        out.obligations += 1
+        if len(got) != len(gs):
+          out.violate('shared:create-failed', 'concurrent CreateSink for key %r: %d of %d calls failed or hung (%r)' % (
+            k, len(gs) - len(got), len(gs), [g.exception for g in gs if not g.successful()][:1]), {})
+        ref = held[k][0] if held.get(k) else (got[0] if got else None)
+        if any(s_ is not ref for s_ in got):
+          out.violate('shared:same-key-different-sink', '%d holders asking for key %r at the same instant got %d '
+                      'different sinks (%d underlying sinks were created)' % (
+                        len(gs), k, len(set(map(id, got + [ref]))), created.count(k) - n_before), {'concurrent': True})
+        held.setdefault(k, []).extend(got)
+        continue
       if rng.random() < 0.65:
         s = sp.CreateSink({'key': k})
         out.obligations += 1
